@@ -210,11 +210,12 @@ def _one(case, bad):
             bad('unit.header', 'machinery', [ver, uv['fmt']], [cu['version'], cu.structs.dwarf_format])
             continue
         kids = list(cu.get_top_DIE().iter_children())
-        if len(kids) != len(uv['refs']):
-            bad('unit.children', 'machinery', len(uv['refs']), len(kids))
+        if len(kids) != uv['entries']:
+            bad('unit.children', 'machinery', uv['entries'], len(kids))
             continue
-        for die, rr in zip(kids, uv['refs']):
-            r = dict(zip(('name', 'form', 'kind', 'val', 'lid', 'ix'), rr))
+        for rr in uv['refs']:
+            r = dict(zip(('name', 'form', 'kind', 'val', 'lid', 'ix', 'entry'), rr))
+            die = kids[r['entry'] - 1]          # the debugging entry that carries this reference (possibly with others)
             attr = die.attributes.get(r['name'])
             if attr is None or attr.form != r['form']:
                 bad('attr.present', 'machinery', [r['name'], r['form']], None if attr is None else [attr.name, attr.form])
@@ -319,7 +320,9 @@ def _one(case, bad):
                            for lid in sv['bydie']])
         views = any(svl[lid - 1]['pairs'] for lid in sv['bydie'])
         gaps = any(not b['tiled'] for b in sv['blocks'])
-        t = 'trailing-gap' if sv['trail'] else 'views' if views else 'gaps' if gaps else 'plain' 
+        t = 'trailing-gap' if sv['trail'] else 'views' if views else 'gaps' if gaps else 'plain'
+        if case['pack'] > 1:
+            t += '/%d-per-entry' % case['pack']
         fac = obj.iter_location_lists if which == 'loc' else obj.iter_range_lists
         for pat, obs in _consume(fac, lambda l: _obs_tr(which, l)):
             o2 = obs if _is_exc(obs) else _multiset(obs)
@@ -368,7 +371,8 @@ def check(run):
                 'format, DWARF 2-5 units), every list of <= MaxLen entries over the kind alphabet, sections of 1..3 unit blocks x '
                 'offset_entry_count {0,1,3} x formats x gaps/view pairs, both section generations side by side, and the decided rows '
                 'of the attribute x form x version cube; non-trivial = a case with at least one list entry (or a decided cube row); '
-                'distinct by emitted section bytes')
+                'location sections again with 2 / 3 list-designating attributes per debugging entry; distinct by emitted section '
+                'and unit bytes')
     run.assumptions += ['DwarfConfig.default_address_size equals the address_size of the list sections and units (one address size per file)',
                         'order of enumeration by debugging entries is not asserted (multiset comparison)',
                         'attributes that never admit class loclist are only required never to be classified as a list',
@@ -385,7 +389,7 @@ def check(run):
         if case['mode'] == 'classify':
             _cube(case, run)
             continue
-        key = core.digest([case['info'], case['le'], case['asz'], [s['bytes'] for s in case['secs']]])
+        key = core.digest([case['info'], case['abbrev'], case['le'], case['asz'], [s['bytes'] for s in case['secs']]])
         if key in seen:
             continue
         seen.add(key)
